@@ -905,6 +905,7 @@ class OdeSystem(object):
         self.__sol = DenseOutput(None, None)
         self.dt = self.__dt0
         self.equ_rhs.nfev = 0
+        self.equ_rhs.njev = 0
         self.__int_status = 0
         if self.__events:
             self.__events = []
